@@ -225,7 +225,8 @@ def corr(ctx):
     st = ctx.stream("corr.adjust_uri")
     lk = probe.L.TemplateLookup(directories=["/srv/t"])
     rels = [None, "/index.html", "/sub/page.html", "/sub/deep/x.html", "sub/page.html", "/", "//a/b", "/a//b/"] + rnd[:50]
-    sample = [""] + [u for u in (uris[:: 11] + rnd[:: 11]) if u]     # the empty uri too (total since the adjust_uri repair)
+    step = 11 if ctx.quick else 37
+    sample = [""] + [u for u in (uris[:: step] + rnd[:: step]) if u]     # the empty uri too (total since the adjust_uri repair)
     reqs, cases = [], []
     for r in rels:
         for u in sample:
